@@ -34,7 +34,7 @@ WITNESS = {"n": 1, "m": 10, "lim": 1000, "eps": 0.01, "r": 2.5, "lower": [0.0], 
            "refine": False}
 RULE = ("exact-minimum families (pwlsum, pwlmax, cone, linear, const, needle for N=1) from objectives.gen_spec(exact_only), 45% "
         "of them rescaled so that K_N*L is spread around r (flat and nearly-reliable cases in every dimension), 8% perturbations "
-        "of the known-finding witness (a thin deep spike under the last trial point, built adaptively), 15% of the generic cases as a RESUMED search (Solve with itersLimit in {1..30}, then the limit is raised in place and the search continued), 8% flat ramps with narrow wells (2L <= r, all slopes seen far below 1), 15% 1-D sawtooth functions with 2L = r (least slack); random box, N=1..5, density, r in (1.05,6], eps "
+        "of the known-finding witness (a thin deep spike under the last trial point, built adaptively), 15% of the generic cases as a RESUMED search (Solve with itersLimit in {1..30}, then the limit is raised in place and the search continued; in 40% of these the first phase ends with a local refinement, refineSolution=True), 12% of the generic cases with the first iterations made in 1..3 batches DoGlobalIteration(k), k in {2..30}, 8% flat ramps with narrow wells (2L <= r, all slopes seen far below 1), 15% 1-D sawtooth functions with 2L = r (least slack); random box, N=1..5, density, r in (1.05,6], eps "
         "per dimension so that the accuracy stop is reachable within itersLimit in {400,1000,2500}. explored = runs; a run is "
         "distinct by its parameter set and non-trivial if it stopped by accuracy AND satisfied the reliability condition (only "
         "then the statement claims anything); stats split them into flat (K_N*L<=r), reliable by M, unreliable, no accuracy stop.")
@@ -78,7 +78,10 @@ def check_case(case):
     if case.get("resume"):
         # a resumed search: the solver is BUILT with a small budget, Solve stops on it, then itersLimit of the same parameters
         # object is raised and the search continued
-        run = oc.Run(dict(case, lim=case["resume"], eps=case.get("resume_eps", case["eps"])), cap=4 * max(case["lim"], 16) + 64)
+        # (case["refine_first"]: the first phase ends with a local refinement of its optimum, refineSolution=True; the continuation
+        # then goes on with the global search and must report whatever is smallest)
+        run = oc.Run(dict(case, lim=case["resume"], eps=case.get("resume_eps", case["eps"]), refine=bool(case.get("refine_first"))),
+                     cap=4 * max(case["lim"], 16) + 5000)
     else:
         run = oc.Run(case)
     Mb = None
@@ -88,6 +91,15 @@ def check_case(case):
             run.solve()
             run.solver.parameters.itersLimit = case["lim"]
             run.solver.parameters.eps = case["eps"]         # (also tightened in place when the first phase ran with a looser eps)
+            if case.get("refine_first") == "once":
+                run.solver.parameters.refineSolution = False     # the continuation is a pure global search
+        for k_ in case.get("pre_batches") or ():
+            # the user drives the first iterations in batches through DoGlobalIteration(k > 1) and lets Solve() finish
+            if run.stopped():
+                break
+            Mb = float(run.solver.method.M[0])
+            if not run.iterate(k_):
+                break
         while not run.stopped():
             Mb = float(run.solver.method.M[0])
             if not run.iterate(1):
@@ -110,7 +122,12 @@ def check_case(case):
     Mb = Mb_obs if Mb is not None else None
     acc = sol.solutionAccuracy
     _, best = oc.best_of(sol)
-    if g and best != min(e[2] for e in g):
+    if g and case.get("refine_first") and not run.collapsed:
+        # with a refinement on the way the result may be smaller than every global trial (the refined value), never larger
+        if not best <= min(e[2] for e in g):
+            vs.append(oc.violation(PROP, case, "returned-is-best", {"returned": best, "min_logged_global": min(e[2] for e in g),
+                                                                    "note": "a local refinement ended the first phase"}))
+    elif g and best != min(e[2] for e in g):
         vs.append(oc.violation(PROP, case, "returned-is-best", {"returned": best, "min_logged": min(e[2] for e in g)}))
     K = oc.K_N(n)
     info.update(L=L, K=K, M_before=Mb, M_final=Mf, flat=K * L <= r)
@@ -213,10 +230,14 @@ def gen(r):
             target = rr * r.choice([0.2, 0.5, 0.9, 1.0, 1.0, 1.5, 2.0, 3.0]) / oc.K_N(n)
             spec = oc.scale_spec(spec, target / L)
     case = oc.gen_case(r, n=n, spec=spec, eps=r.choice(EPS_BY_DIM[n]), lim=r.choice([400, 1000, 2500]), rr=rr)
-    if r.random() < 0.15:
+    if r.random() < 0.12:
+        case["pre_batches"] = [r.choice([2, 3, 5, 10, 30]) for _ in range(r.randint(1, 3))]
+    elif r.random() < 0.15:
         case["resume"] = r.choice([1, 2, 3, 5, 8, 13, 30, 200])
         if r.random() < 0.5:
             case["resume_eps"] = min(0.9, case["eps"] * r.choice([3, 10, 30]))     # the first phase stops on a looser accuracy
+        if r.random() < 0.4:
+            case["refine_first"] = r.choice([True, "once"])
     return case
 
 
